@@ -21,7 +21,10 @@ impl Scenario {
         for t in &self.threads {
             let k = match t.kind { Kind::Block => "block", Kind::Spin => "spin", Kind::NullSp => "nullsp", Kind::Exiter => "exiter", Kind::Vforker => "vforker" };
             let name = match &t.name { None => "-".to_string(), Some(n) if n.is_empty() => "00".to_string(), Some(n) => n.iter().map(|b| format!("{b:02x}")).collect() };
-            match t.at { Some(addr) => s.push_str(&format!("threadat {k} {addr:x} {} {name}\n", t.pages)), None => s.push_str(&format!("thread {k} {} {} {name}\n", t.sp_off, t.pages)) }
+            // pages >> 16 = number of whole pages ABOVE the page of the stack pointer (a deep stack)
+            match t.at { Some(addr) => s.push_str(&format!("threadat {k} {addr:x} {} {name}\n", t.pages)),
+                         None if t.pages >> 16 != 0 => s.push_str(&format!("threadd {k} {} {} {} {name}\n", t.sp_off, t.pages & 0xffff, t.pages >> 16)),
+                         None => s.push_str(&format!("thread {k} {} {} {name}\n", t.sp_off, t.pages)) }
         }
         for l in &self.lines { s.push_str(l); s.push('\n'); }
         s
